@@ -719,6 +719,10 @@ def det_handshake(rng):
                     g.op("auth %d good" % j)
                 g.op("cinitclose %d" % j if n % 2 else "close %d" % j)      # peer gone around ClientInit
                 g.hs.remove(j)
+            if minor >= 7:
+                q = g.connect(minor, passwd=passwd, stop_at="version")
+                g.op("sectype %d %d" % (q, 1 if passwd else 2))      # not offered: the server just hangs up
+                g.hs.remove(q)
             g.op("bell")
             out.append((g.text(), {"det-handshake"}, "det_handshake"))
             n += 1
@@ -795,6 +799,43 @@ def det_flush(rng):
         g.setenc(i, [RAW, XCURSOR])
         g.req(i, 1)
         out.append((g.text(), {"det-flush", "cursor"}, "det_flush"))
+    return out
+
+
+def det_compact_length(rng):
+    """Tight with CompressLevel0 and no JPEG sends the data uncompressed, so the compact length field
+    equals the raw size: rectangles whose data is exactly 127/128/129 and 16383/16384/16385 bytes
+    (1/2/3 length bytes), as indexed (1 byte per pixel), mono (1 bit per pixel) and full-colour data"""
+    k = t0_consts()
+    two, three = k["compactTwoFrom"], k["compactThreeFrom"]
+    out = []
+    cases = []
+    for n in (two - 1, two, two + 1, three - 1, three, three + 1):
+        # indexed: n pixels, 4 colours
+        for w in (128, 127, 129, 145, 64, 16):
+            if n % w == 0 and n // w <= 300:
+                cases.append((4, 6, w, n // w))
+                break
+        else:
+            cases.append((4, 6, n, 1))
+        # mono: (w+7)/8*h bytes
+        for rb in (128, 127, 129, 8):
+            if n % rb == 0 and n // rb <= 300:
+                cases.append((4, 7, rb * 8, n // rb))
+                break
+    # full colour: 4 bytes per pixel (32-bit, depth 32) / 2 bytes per pixel (16-bit screen)
+    cases += [(4, 3, 8, 4), (4, 3, 64, 64), (4, 3, 63, 65), (4, 3, 241, 17), (2, 3, 128, 64), (2, 3, 64, 1),
+              (2, 3, 8191, 1), (2, 3, 8193, 1)]
+    for bpp, mode, w, h in cases:
+        g = Gen(rng)
+        g.screen(w + 8, h + 6, bpp, maxrects=0)
+        i = g.connect(8)
+        g.setenc(i, [TIGHT, COMPRESS0])
+        g.draw(0, 0, w + 8, h + 6, mode=mode)
+        g.req(i, 0)
+        g.op("fbur %d 0 3 2 %d %d" % (i, w, h))
+        g.op("bell")
+        out.append((g.text(), {"det-compact"}, "det_compact_length"))
     return out
 
 
@@ -996,7 +1037,7 @@ def run(ctx):
         for p in sorted(glob.glob(os.path.join(common.VERIF, "corpus", "C03", "*.ops"))):
             cases.append((open(p).read(), {"corpus"}, "corpus:" + os.path.basename(p)))
         cases += det_tight_boundary(ctx.rng) + det_dropcap(ctx.rng) + det_handshake(ctx.rng) + \
-            det_flush(ctx.rng) + det_extdesktop(ctx.rng) + det_scaled_count(ctx.rng)
+            det_flush(ctx.rng) + det_extdesktop(ctx.rng) + det_scaled_count(ctx.rng) + det_compact_length(ctx.rng)
         n = 200 if ctx.tier == "quick" else 3000
         for _ in range(n):
             f = pick_gen(ctx.rng)
